@@ -168,6 +168,19 @@ def _array_attr(ctx, o, c, name):
     return _NOATTR
 
 
+@model(np.shape)
+def m_np_shape(ctx, args, kw):
+    v = args[0]
+    if isinstance(v, Sym):
+        return ()
+    c = ops._array_cell(ctx, v)
+    if c is not None:
+        return (len(c.items),)
+    if isinstance(v, Ref) and isinstance(ctx.cell(v), HList) and ctx.cell(v).items is not None and any_sym(ctx, ctx.cell(v).items):
+        return (len(ctx.cell(v).items),)
+    return NotImplemented
+
+
 @model(np.full_like)
 def m_full_like(ctx, args, kw):
     c = ops._array_cell(ctx, args[0])
